@@ -37,7 +37,7 @@ func SpecZigZag(x int64) uint64 {
 
 // Lemma_SpecVarintInverse re-exports lemma_SpecVarintInverse (proved again under its own name).
 //
-//@ props C01 C03
+// @ props C01 C03
 func Lemma_SpecVarintInverse(s []byte, v uint64) {
 	requires(len(s) >= specVlen(v))
 	requires(specVarintAt(s, 0, v))
@@ -53,7 +53,7 @@ const (
 
 // Lemma_Fixed32Inverse: four little-endian bytes of v recombine to v.
 //
-//@ props C01 C03
+// @ props C01 C03
 func Lemma_Fixed32Inverse(s []byte, v uint32) {
 	requires(len(s) >= 4)
 	requires(forall(0, 4, func(k int) bool { return s[k] == byte(v>>(8*uint(k))) }))
@@ -62,7 +62,7 @@ func Lemma_Fixed32Inverse(s []byte, v uint32) {
 
 // Lemma_Fixed64Inverse: eight little-endian bytes of v recombine to v.
 //
-//@ props C01 C03
+// @ props C01 C03
 func Lemma_Fixed64Inverse(s []byte, v uint64) {
 	requires(len(s) >= 8)
 	requires(forall(0, 8, func(k int) bool { return s[k] == byte(v>>(8*uint(k))) }))
